@@ -8,6 +8,7 @@ package main
 //	xdec <data> <pw> key=<hex>                   Sha256Xor.Decrypt                    -> ok <hex> | err <Name> | panic
 //	senc|xenc <data> <pw>                        real Encrypt (random salt/nonce) then Decrypt -> ok same
 //	lock <type> <crypto> <seed> <n> <pw> <pw2>   real wallet Lock / Serialize / Unlock
+//	lockl | lockfix | svcl | svcfix              wallets loaded from sparse / legacy files: see legacy.go
 //
 // `um=` and `fin=` are read-backs of library calls (json.Unmarshal of the metadata bytes; scrypt +
 // chacha20poly1305 open on the parsed parameters) that the Lean model takes as inputs; they are
@@ -516,6 +517,8 @@ func c18Exec(op string) string {
 		return execAlias(f)
 	case "lockext":
 		return execLockExt(f)
+	case "lockl", "lockfix", "svcl", "svcfix":
+		return legacyExec(op)
 	}
 	panic("harness: unknown op " + f[0])
 }
@@ -647,6 +650,12 @@ func c18Gen(r *Rng, tier string, emit func(string)) {
 		scale = 12
 	}
 	pwOf := func() []byte { return r.Bytes(1 + r.Intn(12)) }
+
+	// --- wallets loaded from sparse / legacy files (own stream; the slow default-cipher cases run in the
+	// background while everything else is generated and are collected at the end) ---
+	cp := *r
+	finishLegacy := legacyGen(NewRng(cp.U64()^0xC18D), tier, emit)
+	defer finishLegacy()
 
 	// --- base64 model ---
 	alpha := []byte("ABCDEFGHIJKLMNOPQRSTUVWXYZabcdefghijklmnopqrstuvwxyz0123456789+/=\n\r -_.")
